@@ -129,13 +129,19 @@ func runTab(ops []op, tags map[string]bool) {
 	}()
 	hx.Printf("case %d kind=tab ops=%s perm=%s text=%s tag=%s\n", id, opsString(ops), intsString(perm), out, tagString(tags))
 	hx.Printf("obs %d out=%s\n", id, out)
-	hx.Printf("sobs %d layout=ok\n", id)
+	// spec vocabulary: a call sequence that moves to an earlier column must be refused (panic);
+	// everything else must be laid out
+	if out == "!panic" {
+		hx.Printf("sobs %d layout=panic\n", id)
+	} else {
+		hx.Printf("sobs %d layout=ok\n", id)
+	}
 	id++
 }
 
 func tagString(tags map[string]bool) string {
 	var l []string
-	for _, k := range []string{"span", "shrinkonly", "shrink", "mb", "inv", "missing", "margin", "blank", "emptyrow", "bs", "big"} {
+	for _, k := range []string{"back", "span", "shrinkonly", "shrink", "mb", "inv", "missing", "margin", "blank", "emptyrow", "bs", "big"} {
 		if tags[k] {
 			l = append(l, k)
 		}
@@ -268,6 +274,14 @@ func genTable(r *hx.Rand, maxRows, maxCols int) ([]op, map[string]bool) {
 			}
 		}
 	}
+	// rarely: a move to an earlier column in the middle of a row (must panic)
+	if r.Chance(1, 40) && len(ops) > 3 {
+		i := 1 + r.Intn(len(ops)-1)
+		if ops[i].kind == 'c' && ops[i].n > 0 && ops[i-1].kind == 's' {
+			tags["back"] = true
+			ops[i].n = r.Intn(ops[i].n)
+		}
+	}
 	// shrink marks may come anywhere in the call sequence: move them to the front sometimes
 	if r.Chance(1, 3) {
 		var ks, rest []op
@@ -370,7 +384,10 @@ func tabCases(r *hx.Rand) {
 	runTab([]op{{kind: 'r'}, {kind: 's', n: 1, val: "abcdef"}, {kind: 'r'}, {kind: 's', n: 1, val: "", opts: []string{"C", "M|"}}},
 		map[string]bool{"margin": true})
 	// moving to an earlier column panics
-	runTab([]op{{kind: 'r'}, {kind: 'c', n: 3}, {kind: 's', n: 1, val: "a"}, {kind: 'c', n: 1}}, map[string]bool{"missing": true})
+	runTab([]op{{kind: 'r'}, {kind: 'c', n: 3}, {kind: 's', n: 1, val: "a"}, {kind: 'c', n: 1}}, map[string]bool{"missing": true, "back": true})
+	// … because otherwise a later cell can be put on top of an earlier one
+	runTab([]op{{kind: 'r'}, {kind: 'c', n: 3}, {kind: 's', n: 1, val: "aaaa"}, {kind: 'c', n: 1}, {kind: 's', n: 3, val: "bbbbbbbb"},
+		{kind: 'r'}, {kind: 's', n: 1, val: "x"}, {kind: 's', n: 1, val: "y"}, {kind: 's', n: 1, val: "z"}}, map[string]bool{"span": true, "back": true})
 	n := hx.N(2500, 60000)
 	for i := 0; i < n; i++ {
 		var ops []op
@@ -806,6 +823,10 @@ func treeScenario(r *hx.Rand, dir string) scenario {
 		numLevel = r.Intn(depth)
 		tags["numtie"] = true
 	}
+	longVals := r.Chance(1, 5) // header cells wider than the columns under them
+	if longVals {
+		tags["widehdr"] = true
+	}
 	tiePool := [][]string{{"1000", "1k", "2", "1"}, {"1", "1.0", "3", "2"}, {"go1.2", "go1.20", "go1.3", "7"}, {"x", "y", "1", "z"}}[r.Intn(4)]
 	// leaves of a random unbalanced tree, at most 9
 	var leaves [][]string
@@ -823,6 +844,8 @@ func treeScenario(r *hx.Rand, dir string) scenario {
 			v := fmt.Sprintf("%s%d", strings.ToUpper(nameKeys[level]), i+1)
 			if level == numLevel {
 				v = tiePool[i%4]
+			} else if longVals {
+				v = fmt.Sprintf("a-rather-long-configuration-value-%s%d", nameKeys[level], i+1)
 			} else if r.Chance(1, 8) {
 				v = fmt.Sprintf("%s%d", strings.ToUpper(nameKeys[level]), 1+r.Intn(2)) // repeats under different parents
 			}
@@ -911,7 +934,7 @@ func tagList(tags map[string]bool, order []string) string {
 	return strings.Join(tl, "+")
 }
 
-var e2eTags = []string{"numtie", "zero", "compare", "nodelta", "missing", "tables", "levels2", "levels3", "levels4", "levels5", "multirow", "units", "warn"}
+var e2eTags = []string{"widehdr", "numtie", "zero", "compare", "nodelta", "missing", "tables", "levels2", "levels3", "levels4", "levels5", "multirow", "units", "warn"}
 
 func runScenario(sc scenario) {
 	myid := id
